@@ -43,10 +43,10 @@ type c17View struct {
 	Clock int       `json:"clock"`
 }
 type c17Act struct {
-	N    string   `json:"n"`
-	K    int      `json:"k"`
-	X    string   `json:"x"`
-	R    c17Resp  `json:"r"`
+	N     string   `json:"n"`
+	K     int      `json:"k"`
+	X     string   `json:"x"`
+	R     c17Resp  `json:"r"`
 	View  []string `json:"view"`
 	Rs    string   `json:"rs"`
 	Extra string   `json:"extra"`
@@ -380,7 +380,9 @@ func (c *c17Config) oracle(ed *c17Edge, r c17Real) string {
 	if r.Panic != "" {
 		return "the ACS request panicked"
 	}
-	own := func(j int) bool { return j >= 1 && j <= len(a.View) && a.View[j-1] == fmt.Sprintf("f%d", j) && c17TokOK(from, j) }
+	own := func(j int) bool {
+		return j >= 1 && j <= len(a.View) && a.View[j-1] == fmt.Sprintf("f%d", j) && c17TokOK(from, j)
+	}
 	if r.SessCookie != nil {
 		if a.R.K == 0 {
 			return "an unsolicited response established a session although IdP-initiated login is disabled"
@@ -617,5 +619,166 @@ func TestC17(t *testing.T) {
 				c17Run(t, rep, cfg, lines, 1)
 			}
 		}
+	}
+}
+
+// ---------------------------------------------------------------------------
+// reverse direction: random histories without restore, validated by spec/TraceMiddleware.tla
+
+func TestC17Random(t *testing.T) {
+	rep := NewReport("C17")
+	defer rep.Finish(t)
+	nHist, steps := 60, 40
+	if thorough() {
+		nHist, steps = 600, 60
+	}
+	oldNow, oldRand, oldJWT := saml.TimeNow, saml.RandReader, jwt.TimeFunc
+	defer func() { saml.TimeNow, saml.RandReader, jwt.TimeFunc = oldNow, oldRand, oldJWT }()
+	saml.TimeNow = goroutineNow
+	jwt.TimeFunc = goroutineNow
+	saml.RandReader = &safeRand{r: newRand("c17random-rand")}
+	const nFlows, maxNet, maxClock = 3, 4, 3
+	users := []string{"alice", "bob"}
+	type line struct {
+		A map[string]any `json:"a"`
+		R *c17Reply      `json:"r,omitempty"`
+	}
+	hists := make([][]line, nHist)
+	cfgs := []*c17Config{c17NewConfig(true, false, false), c17NewConfig(false, true, false), c17NewConfig(true, false, true)}
+	parallel(nHist, func(h int) {
+		rng := newRand(fmt.Sprintf("c17random/%d", h))
+		cfg := cfgs[h%len(cfgs)]
+		st := &c17State{flows: map[int]*c17Flow{}, trk: map[int]bool{}, net: map[c17Resp][]byte{}}
+		out := []line{{A: map[string]any{"n": "Reset"}}}
+		setGoroutineClock(c17Now(0))
+		defer clearGoroutineClock()
+		for s := 0; s < steps; s++ {
+			switch rng.Intn(10) {
+			case 0: // start a flow
+				var un []int
+				for k := 1; k <= nFlows; k++ {
+					if st.flows[k] == nil {
+						un = append(un, k)
+					}
+				}
+				if len(un) == 0 {
+					continue
+				}
+				k := un[rng.Intn(len(un))]
+				r, problem := cfg.startFlow(st, k)
+				if problem != "" {
+					rep.Break("random driver: flow start: %s", problem)
+					return
+				}
+				out = append(out, line{A: map[string]any{"n": "StartFlow", "k": k}, R: &r})
+			case 1, 2: // the IdP answers / volunteers
+				if len(st.net) >= maxNet {
+					continue
+				}
+				r := c17Resp{X: users[rng.Intn(2)], At: st.clock}
+				var started []int
+				for k := range st.flows {
+					started = append(started, k)
+				}
+				sort.Ints(started)
+				if len(started) > 0 && rng.Intn(4) != 0 {
+					r.K = started[rng.Intn(len(started))]
+				}
+				if _, dup := st.net[r]; dup {
+					continue
+				}
+				cfg.issue(st, r)
+				if r.K != 0 {
+					out = append(out, line{A: map[string]any{"n": "IdPAnswer", "k": r.K, "x": r.X}})
+				} else {
+					out = append(out, line{A: map[string]any{"n": "IdPUnsolicited", "x": r.X}})
+				}
+			case 3:
+				if st.clock >= maxClock {
+					continue
+				}
+				st.clock++
+				setGoroutineClock(c17Now(st.clock))
+				out = append(out, line{A: map[string]any{"n": "Tick"}})
+			default: // deliver something
+				if len(st.net) == 0 {
+					continue
+				}
+				var rs []c17Resp
+				for r := range st.net {
+					rs = append(rs, r)
+				}
+				sort.Slice(rs, func(i, j int) bool { return fmt.Sprint(rs[i]) < fmt.Sprint(rs[j]) })
+				a := c17Act{N: "Deliver", R: rs[rng.Intn(len(rs))], Extra: "none"}
+				faithful := rng.Intn(3) == 0
+				for i := 1; i <= nFlows; i++ {
+					v := "absent"
+					if st.flows[i] != nil {
+						if faithful {
+							if st.trk[i] {
+								v = fmt.Sprintf("f%d", i)
+							}
+						} else {
+							opts := []string{"absent", "foreign", "garbage"}
+							for j := range st.trk {
+								opts = append(opts, fmt.Sprintf("f%d", j), fmt.Sprintf("f%d", j))
+							}
+							if st.sess != "" {
+								opts = append(opts, "session")
+							}
+							sort.Strings(opts)
+							v = opts[rng.Intn(len(opts))]
+						}
+					}
+					a.View = append(a.View, v)
+				}
+				rsOpts := []string{"none", "evil"}
+				for k := range st.flows {
+					rsOpts = append(rsOpts, fmt.Sprintf("f%d", k))
+				}
+				sort.Strings(rsOpts)
+				a.Rs = rsOpts[rng.Intn(len(rsOpts))]
+				if faithful && a.R.K != 0 {
+					a.Rs = fmt.Sprintf("f%d", a.R.K)
+				}
+				if st.sess != "" && !faithful && rng.Intn(3) == 0 {
+					a.Extra = "sess-as-trk"
+				}
+				real := cfg.deliver(st, a)
+				if real.Panic != "" {
+					rep.Violation(fmt.Sprintf("C17:random:h%d:panic", h), "the ACS request panicked", map[string]any{"history": out})
+					return
+				}
+				if real.SessCookie != nil {
+					st.sess, st.sessU = real.SessCookie.Value, real.Reply.Session
+				}
+				if real.Reply.Cleared != 0 {
+					delete(st.trk, real.Reply.Cleared)
+				}
+				r := real.Reply
+				out = append(out, line{A: map[string]any{"n": "Deliver", "r": a.R, "view": a.View, "rs": a.Rs, "extra": a.Extra}, R: &r})
+				rep.Eval("RandomDelivery", fmt.Sprintf("h%d-%d", h, s))
+			}
+		}
+		hists[h] = out
+	})
+	f, err := os.Create(workDir() + "/trace.ndjson")
+	if err != nil {
+		rep.Break("%v", err)
+		return
+	}
+	defer f.Close()
+	n := 0
+	for _, h := range hists {
+		for _, l := range h {
+			b, _ := json.Marshal(l)
+			f.Write(append(b, '\n'))
+			n++
+		}
+	}
+	rep.Extra["random_histories"] = nHist
+	rep.Extra["random_trace_lines"] = n
+	if len(hists) > 0 && len(hists[0]) > 5 {
+		rep.Sample(hists[0][:5])
 	}
 }
